@@ -67,6 +67,12 @@ CHECKS = {
         text='Three oracles at every sampled cursor: the prefix must equal the identifier characters left of the cursor (pure text), the proposal list must be sorted / duplicate-free / identifiers / marker-free, and inserting the cursor must not change the analysis (proposals equal what the unmarked analysis makes visible there, for bare names and for `expr.`). The preceding-character classes the property lists are enumerated in synthetic lines.',
         design_ref='DESIGN.md section 4 (C12)',
         note='Positions where the marked text does not parse are skipped (SyntaxError is allowed there, C08 owns that rule); non-ASCII lines skipped.'),
+    'C10': dict(
+        technique='property-based differential testing against a purely syntactic reference model (own AST walk, no flow analysis) over generated modules (binding kind x scope kind x name shape) and real files',
+        category='exploration',
+        text='For identifiers that are never read anywhere in the file the set of W01/W02 reports is fully determined by the statement; the reference computes it from (binding kind, scope kind, name shape) alone and the check compares multisets of (code, name, line, col), so over-reporting, under-reporting, wrong code/position and duplicates are all caught.',
+        design_ref='DESIGN.md section 4 (C10)',
+        note='Names touched by nonlocal / del / augmented assignment, parameters of a lambda written directly in a class body, and files reading `locals` are left unclassified because the statement is silent on them.'),
 }
 
 NOT_YET = 'check not built yet in this session (planned in DESIGN.md section 4); not claimed until its command exists'
